@@ -49,7 +49,7 @@ def x_outcome(resp):
     return resp.get('stdout', ''), rc, d
 
 
-def gen_script(seed, pid, idx, profiles=None, queries=True, printing=False, unsupported_queries=0.0):
+def gen_script(seed, pid, idx, profiles=None, queries=True, printing=False, unsupported_queries=0.0, xnames=0.125):
     """A valid script from the history generator with a configuration prefix."""
     r = sub_rng(seed, pid, idx, 'script-prof')
     prof = r.choice(profiles or gen.ALL_PROFILES)
@@ -72,7 +72,7 @@ def gen_script(seed, pid, idx, profiles=None, queries=True, printing=False, unsu
             need.append('assignments')
             q.append(('get-assignment', 0.5))
     opts, knobs, unusual, tags = cfg.gen_config(sub_rng(seed, pid, idx, 'script-config'), need=need, perturb=True)
-    kw = dict(unsat_bias=0.3, named=0.4, nested_named=0.05, defines=0.05, queries=tuple(q))
+    kw = dict(unsat_bias=0.3, named=0.4, nested_named=0.05, defines=0.05, queries=tuple(q), xnames=xnames)
     if not tags['incremental']:
         kw['max_push'] = 0
     if prof not in gen.MODEL_PROFILES and not (sub_rng(seed, pid, idx, 'script-unsupported').random() < unsupported_queries):
@@ -318,7 +318,9 @@ class C23(Check):
             'non-trivial = output >= 200 bytes containing a model, core, interpolant or proof; distinct = hash of script')
 
     def gen_case(self, seed, idx, tier):
-        lines, prof, tags = gen_script(seed, self.pid, idx, queries=True)
+        # (models of uninterpreted functions next to constants named like their formal arguments: the printer has to rename)
+        lines, prof, tags = gen_script(seed, self.pid, idx, queries=True, xnames=0.5,
+                                       profiles=gen.ALL_PROFILES + ['QF_UF', 'QF_UFLRA', 'QF_UFLIA', 'QF_UFIDL', 'QF_UF', 'QF_UFLRA'])
         r = sub_rng(seed, self.pid, idx, 'var')
         case = {'pid': self.pid, 'idx': idx, 'script': '\n'.join(lines) + '\n', 'heap_a': r.randint(1, 2 ** 31), 'heap_b': r.randint(1, 2 ** 31),
                 'clock_b': {'ns_per_tick': r.choice([1, 50, 100000]), 'jumps': [[r.randint(10, 100000), r.choice([10 ** 9, 10 ** 12])]]}, 'mode': r.choice(['file', 'file', 'pipe'])}
